@@ -62,6 +62,13 @@ def field_eom(spec, shift=0.0, wrap=None):
         for c, A, s in zip(e["cs"], As, states):
             if c:
                 v = v + c * np.trace(s @ A)
+        ret = e.get("ret", "complex")
+        if ret == "numpy-scalar":
+            return np.complex128(v)
+        if ret == "array-0d":
+            return np.array(complex(v))
+        if ret == "array-1":
+            return np.array([complex(v)])          # accepted by MeanFieldSystem (its input check calls complex(value))
         return complex(v)
     return wrap(f, "field_eom") if wrap else f
 
